@@ -111,36 +111,33 @@ def run(ctx) -> None:
                           "the raw-byte column is optional (a listing printed without it yields the same stream)")
             if not bytecol:
                 ctx.ok("C16.I3.presentation-optional", construct, "no byte column in the regex")
-    # I4 forwarding
-    opm = ctx.p.find_class("ObjdumpParserManual")
-
-    def parse_line_summary(I, func, self_val, args, kwargs, node, fr):
-        a = args[0] if args else kwargs.get("line")
-        return Unknown(I.run.new_tag("parsed"), {"expr": f"parse_line({I.expr_of(a)})", "not_none": True})
-    I2 = make_interp(ctx.p, {"parse_line": parse_line_summary})
-
-    def thunk(I):
-        o = I.construct(opm, [], {}, None, None)
-        cons = Unknown("CONSUMER", {"truthy": True, "not_none": True})
-        return I.call_func(opm.find_method("parse"), [Str((Hole("FILE", "text", True),)), cons], {}, o, None, None)
-    for p in I2.explore(thunk):
-        if p.kind != "return":
-            ctx.fail("C16.I4.only-instructions-forwarded", "ObjdumpParserManual.parse", f"raises {p.exc!r}"[:80], "parse raises")
+    # I7: a byte-only line (the continuation of a long instruction, in any spacing) is never read as an instruction:
+    # the regex that feeds an Instruction site must not match such a line unless a regex tried earlier on the same
+    # path does (constant regexes applied to constant witness lines)
+    from ..lineflow import match_calls
+    witnesses = [pad + addr + ":\t" + b + tail for pad in ("  ", "", "      ") for addr in ("401008", "7ff6", "180157f0c")
+                 for b in ("33 22", "00", "de ad be ef 00 11 22", "0f 1f 84 00 00 00 00") for tail in ("", " ", "  ", "\t", "   \t", "        ")]
+    seen7 = set()
+    for site in sites:
+        ao = origin(I, site.fields.get("addr"))
+        mo_ = origin(I, site.fields.get("mnemonic"))
+        if ao[0] != "group" or mo_[0] != "group":
+            continue    # the pseudo instruction of a padding line (literal mnemonic) is removed by the first observer (I4b)
+        tried = [e.args[0].text() for e in match_calls(site.path) if e.args and isinstance(e.args[0], Str) and e.args[0].is_concrete()]
+        if ao[1] not in tried:
             continue
-        calls = [e for e in p.events if e.kind == "call_unknown" and e.target.endswith("consume_instruction")]
-        cfg = [e for e in p.events if e.kind == "cfg_get"]
-        args = [I2.expr_of(c.args[0]) for c in calls if c.args]
-        # the per-element decision: either a comprehension filter (kept as a flag of the abstract list) or an
-        # isinstance test in the loop body (a path assumption); nothing else may take part
-        other = [(k, v) for k, v, _ in p.conds if not (isinstance(k, tuple) and k[0] == "isinstance" and k[-1] == "Instruction")
-                 and not (isinstance(k, tuple) and k[0] == "truth")]
-        not_instr = any(isinstance(k, tuple) and k[0] == "isinstance" and k[-1] == "Instruction" and v is False for k, v, _ in p.conds)
-        empty = any(isinstance(k, tuple) and k[0] == "truth" and v is False for k, v, _ in p.conds)
-        want = [] if (not_instr or empty) else ["parse_line(<<FILE>.split('\\n')[*]>)"]
-        ok = args == want and not cfg and not other
-        ctx.check(ok, "C16.I4.only-instructions-forwarded", "ObjdumpParserManual.parse",
-                  f"consumed={args} expected={want} config-reads={[c.key for c in cfg]} other-conditions={[str(k)[:40] for k, _ in other]}"[:240],
-                  "every parsed line that is an Instruction is forwarded once, in line order; nothing else decides")
+        guards = tried[:tried.index(ao[1])]
+        key7 = (ao[1], tuple(guards))
+        if key7 in seen7:
+            continue
+        seen7.add(key7)
+        hit = [w for w in witnesses if re.match(ao[1], w) and not any(re.match(g, w) or re.search(g, w) for g in guards)]
+        ctx.check(not hit, "C16.I7.byte-lines-are-not-instructions", f"line regex {ao[1][:50]!r}", (repr(hit[0]) if hit else ""),
+                  "no instruction line regex accepts a line that consists of an address and raw bytes only "
+                  f"({len(witnesses)} spacing variants), unless an earlier test on the same path catches that line")
+    # I4 forwarding
+    from ._parser import forwarding_rule
+    forwarding_rule(ctx, "C16.I4.only-instructions-forwarded")
     # any comprehension filter in parse is the Instruction test
     src = ctx.p.find_func("ObjdumpParserManual.parse")
     import ast as _ast
